@@ -292,6 +292,14 @@ func c17Client(proto string) *Client {
 	return c
 }
 
+// c17Done releases the connections of a per-case client (thousands of cases per run).
+func c17Done(c *Client) {
+	c.Transport.CloseIdleConnections()
+	if c.Transport.t3 != nil {
+		c.Transport.t3.Close()
+	}
+}
+
 // c17AsRequest rebuilds a server-side *http.Request from what arrived, so that the standard
 // parsers (ParseForm, ParseMultipartForm, MultipartReader) can be run on it.
 func c17AsRequest(s c17Seen) *http.Request {
